@@ -15,6 +15,16 @@ def check(run):
     def mk(backend, depth, nops):
         cap = 1 << depth
         seq = treegen.gen_seq(rng, backend, depth, nops, kinds, observe="some")
+        if rng.random() < 0.5 and depth >= 2:
+            # a range written twice with ONE element changed (first / middle / last), and a batch that replaces part of it: the
+            # rewrite must reach the root whichever position changed (early exits on "this parent did not change")
+            n = rng.randint(2, min(cap, 8))
+            st = rng.randrange(0, cap - n + 1)
+            vs = [rng.randint(1, 1 << 40) for _ in range(n)]
+            v2 = list(vs); v2[rng.choice([0, n // 2, n - 1])] = rng.randint(1, 1 << 40)
+            seq += [f"range {hex(st)} {treegen.vlist(vs)}", "root", f"range {hex(st)} {treegen.vlist(v2)}", "root"]
+            if backend != "pm" and n >= 3:
+                seq += [f"batch {hex(st + 1)} {treegen.vlist([rng.randint(1, 99)] + v2[2:])} {hex(st)}", "root"]
         # proofs of every position on small trees, of boundary and random positions on deep ones
         positions = list(range(cap)) if depth <= 4 else sorted({0, 1, cap - 1, cap // 2, cap // 2 - 1} | {rng.randrange(cap) for _ in range(6)})
         if depth > 8:
